@@ -15,6 +15,7 @@
 #include <tbox/alarm/oneshot_alarm.h>
 #include <tbox/alarm/workday_alarm.h>
 #include <tbox/alarm/workday_calendar.h>
+#include <tbox/alarm/cron_alarm.h>
 
 using namespace tbox;
 using namespace tbox::alarm;
@@ -32,6 +33,11 @@ struct WorkdayProbe : WorkdayAlarm {
     bool calc(uint32_t t, uint32_t &r) { return calculateNextLocalTimeSec(t, r); }
 };
 
+struct CronProbe : CronAlarm {
+    using CronAlarm::CronAlarm;
+    bool calc(uint32_t t, uint32_t &r) { return calculateNextLocalTimeSec(t, r); }
+};
+
 static const int64_t kWall0 = 1700000000000LL;
 static const uint64_t kMaxWallMs = 4294967295999ULL;
 static const size_t kSlots = 4;
@@ -40,7 +46,6 @@ struct Slot { char kind = 0; WeeklyProbe *wk = nullptr; OneshotProbe *os = nullp
 static Slot slots[kSlots];
 static std::unique_ptr<WorkdayCalendar> cal;
 static event::Loop *loop = nullptr;
-static std::vector<std::string> fired;
 
 // kNone and kInited cannot be told apart through the API (only isEnabled()): the harness tracks N / I
 // from the results of the calls it made itself
@@ -57,30 +62,58 @@ static std::string state_line(int ret) {
     return s;
 }
 
-// callback body: record; a callback storm inside one pass (a re-arm with zero delay served again and
-// again by handleExpiredTimers) would never return to the driver: report and stop the process
+// callback scripts: API calls made from inside the callback
+struct Act { std::string kind; size_t j = 0; uint64_t n = 0; std::map<int, bool> sp; };
+static std::vector<Act> scripts[kSlots];
+static int pass_callbacks = 0;
+static void run_act(const Act &a);
+
+// callback body: report (in the order the loop really serves), then run the script; a callback storm
+// inside one pass (a re-arm with zero delay served again and again by handleExpiredTimers) would never
+// return to the driver: report and stop the process
 static void on_alarm(size_t i) {
-    fired.push_back("F " + std::to_string(i) + " " + showAt(i));
-    if (fired.size() > 64) {
-        for (auto &l : fired) std::cout << l << "\n";
+    std::cout << "F " << i << " " << showAt(i) << "\n";
+    if (++pass_callbacks > 64) {
         std::cout << "F-STORM more than 64 callbacks in one pass" << std::endl;
         _exit(3);
     }
+    std::vector<Act> sc = scripts[i];
+    for (auto &a : sc) run_act(a);
 }
 
 static void reset_all() {
     for (size_t i = 0; i < kSlots; ++i) {
         Alarm *a = slots[i].a();
         if (a) { a->disable(); delete a; }
-        slots[i] = Slot(); st[i] = 'N';
+        slots[i] = Slot(); st[i] = 'N'; scripts[i].clear();
     }
     cal.reset(new WorkdayCalendar());
-    fired.clear();
+    pass_callbacks = 0;
     vt::set_wall_ms(kWall0);
 }
 
+static void run_act(const Act &a) {
+    if (a.kind == "cm") { cal->updateWeekMask((uint8_t)a.n); return; }
+    if (a.kind == "cs") { cal->updateSpecialDays(a.sp); return; }
+    Alarm *al = slots[a.j].a();
+    if (!al) return;
+    if (a.kind == "rf") al->refresh();
+    else if (a.kind == "dis") al->disable();
+    else if (a.kind == "en") al->enable();
+    else if (a.kind == "del") { delete al; slots[a.j] = Slot(); st[a.j] = 'N'; }
+}
+
 static bool slot_of(const std::string &w, size_t &i) { uint64_t v; if (!vh::to_u64(w, v) || v >= kSlots) return false; i = v; return true; }
-static bool bounded(const std::string &w, uint64_t hi, uint64_t &v) { return w.size() <= 18 && vh::to_u64(w, v) && v <= hi; }
+static bool bounded(const std::string &w, uint64_t hi, uint64_t &v) {
+    if (w.size() > 18 || (w.size() > 1 && w[0] == '0')) return false;       // no leading zeros
+    return vh::to_u64(w, v) && v <= hi;
+}
+static bool int_of(const std::string &w, int64_t lo, int64_t hi, int64_t &v) {
+    uint64_t u; bool neg = !w.empty() && w[0] == '-';
+    if (!bounded(neg ? w.substr(1) : w, 1000000000ULL, u)) return false;
+    v = neg ? -(int64_t)u : (int64_t)u;
+    return v >= lo && v <= hi;
+}
 static bool mask_of(const std::string &w, std::string &m) {
     if (w == "-") { m.clear(); return true; }
     if (w.size() > 9) return false;
@@ -88,17 +121,63 @@ static bool mask_of(const std::string &w, std::string &m) {
     m = w; return true;
 }
 static bool bool_of(const std::string &w, bool &b) { if (w == "1") { b = true; return true; } if (w == "0") { b = false; return true; } return false; }
-static bool specials_of(const std::string &w, std::map<int, bool> &m) {
+static bool specials_of(const std::string &w, std::map<int, bool> &m, char sep = ',') {
     m.clear();
     if (w == "-") return true;
-    if (w.empty() || w.back() == ',') return false;
+    if (w.empty() || w.back() == sep) return false;
     std::stringstream ss(w); std::string item;
-    while (std::getline(ss, item, ',')) {
+    while (std::getline(ss, item, sep)) {
         size_t p = item.find(':');
         if (p == std::string::npos || item.find(':', p + 1) != std::string::npos) return false;
         uint64_t d; bool b;
         if (!bounded(item.substr(0, p), 100000, d) || !bool_of(item.substr(p + 1), b)) return false;
         m.insert(std::make_pair((int)d, b));      // first entry of a day wins
+    }
+    return true;
+}
+static std::vector<std::string> split(const std::string &w, char sep) {   // keeps empty pieces, like String.splitOn
+    std::vector<std::string> out; std::string cur;
+    for (char c : w) { if (c == sep) { out.push_back(cur); cur.clear(); } else cur.push_back(c); }
+    out.push_back(cur);
+    return out;
+}
+static bool script_of(const std::string &w, size_t self, std::vector<Act> &out) {
+    out.clear();
+    if (w == "-") return true;
+    auto items = split(w, ',');
+    if (items.size() > 6) return false;
+    for (auto &it : items) {
+        Act a; uint64_t v;
+        auto tail = [&](size_t n) { return it.substr(n); };
+        if (it.compare(0, 2, "rf") == 0 && slot_of(tail(2), a.j)) a.kind = "rf";
+        else if (it.compare(0, 3, "dis") == 0 && slot_of(tail(3), a.j)) a.kind = "dis";
+        else if (it.compare(0, 2, "en") == 0 && slot_of(tail(2), a.j)) a.kind = "en";
+        else if (it.compare(0, 3, "del") == 0 && slot_of(tail(3), a.j) && a.j != self) a.kind = "del";
+        else if (it.compare(0, 2, "cm") == 0 && bounded(tail(2), 255, v)) { a.kind = "cm"; a.n = v; }
+        else if (it.compare(0, 2, "cs") == 0 && specials_of(tail(2), a.sp, '+')) a.kind = "cs";
+        else return false;
+        out.push_back(a);
+    }
+    return true;
+}
+// cron field of the supported shape: items (<= 6) of  range | range/num ;  range = * | num | num-num ; num <= 999, no leading zeros
+static bool cron_num(const std::string &w) { uint64_t v; return bounded(w, 999, v); }
+static bool cron_range(const std::string &w) {
+    if (w == "*") return true;
+    auto p = split(w, '-');
+    if (p.size() == 1) return cron_num(p[0]);
+    if (p.size() == 2) return cron_num(p[0]) && cron_num(p[1]);
+    return false;
+}
+static bool cron_field(const std::string &w) {
+    if (w.size() > 40) return false;
+    auto items = split(w, ',');
+    if (items.size() > 6) return false;
+    for (auto &it : items) {
+        auto p = split(it, '/');
+        if (p.size() == 1) { if (!cron_range(p[0])) return false; }
+        else if (p.size() == 2) { if (!cron_range(p[0]) || !cron_num(p[1])) return false; }
+        else return false;
     }
     return true;
 }
@@ -113,17 +192,8 @@ int main(int argc, char **argv) {
     reset_all();
     bool pending = false;
     drv.step = [&]() -> bool {
-        if (pending) {
-            std::sort(fired.begin(), fired.end());
-            for (auto &l : fired) std::cout << l << "\n";
-            fired.clear();
-            std::cout << state_line(1) << "\n";
-            pending = false;
-        } else if (!fired.empty()) {
-            // a callback outside a clock op: never expected by the model (armed delays are >= 1 ms)
-            for (auto &l : fired) std::cout << l << " UNEXPECTED\n";
-            fired.clear();
-        }
+        if (pending) { std::cout << state_line(1) << "\n"; pending = false; }
+        pass_callbacks = 0;
         std::string line;
         if (!std::getline(std::cin, line)) { reset_all(); cal.reset(); return false; }
         auto w = vh::words(line);
@@ -148,7 +218,15 @@ int main(int argc, char **argv) {
             if (!p.initialize((int)sod, &c, b)) { std::cout << "P init=0\n"; return true; }
             uint32_t r = 0; bool ok = p.calc((uint32_t)t, r);
             std::cout << show_next(ok, r) << "\n";
-        } else if (op == "new" && w.size() == 3 && slot_of(w[1], i) && (w[2] == "wk" || w[2] == "os" || w[2] == "wd") && !slots[i].a()) {
+        } else if (op == "cron" && w.size() == 8 && cron_field(w[1]) && cron_field(w[2]) && cron_field(w[3]) && cron_field(w[4]) &&
+                   cron_field(w[5]) && cron_field(w[6]) && bounded(w[7], 4294967295ULL, t)) {
+            CronProbe p(loop);
+            if (!p.initialize(w[1] + " " + w[2] + " " + w[3] + " " + w[4] + " " + w[5] + " " + w[6])) { std::cout << "P init=0\n"; return true; }
+            uint32_t r = 0; bool ok = p.calc((uint32_t)t, r);
+            std::cout << show_next(ok && r != 4294967295U, r) << "\n";     // (time_t)-1 = ccronexpr found nothing
+        } else if (op == "new" && (w.size() == 3 || w.size() == 4) && slot_of(w[1], i) && (w[2] == "wk" || w[2] == "os" || w[2] == "wd") && !slots[i].a() &&
+                   (w.size() == 3 || script_of(w[3], i, scripts[i]))) {
+            if (w.size() == 3) scripts[i].clear();
             Slot &s = slots[i];
             if (w[2] == "wk") { s.kind = 'k'; s.wk = new WeeklyProbe(loop); }
             else if (w[2] == "os") { s.kind = 'o'; s.os = new OneshotProbe(loop); }
@@ -156,13 +234,13 @@ int main(int argc, char **argv) {
             st[i] = 'N';
             s.a()->setCallback([i] { on_alarm(i); });
             std::cout << state_line(1) << "\n";
-        } else if (op == "init" && w.size() == 5 && slot_of(w[1], i) && vh::to_i64(w[2], iv) && w[2].size() <= 10 && iv >= -200000 && iv <= 200000 &&
+        } else if (op == "init" && w.size() == 5 && slot_of(w[1], i) && int_of(w[2], -200000, 200000, iv) &&
                    mask_of(w[3], m) && bool_of(w[4], b) && slots[i].a()) {
             Slot &s = slots[i];
             bool ok = s.kind == 'k' ? s.wk->initialize((int)iv, m) : s.kind == 'o' ? s.os->initialize((int)iv) : s.wd->initialize((int)iv, cal.get(), b);
             if (ok) st[i] = 'I';
             std::cout << state_line(ok) << "\n";
-        } else if (op == "tz" && w.size() == 3 && slot_of(w[1], i) && vh::to_i64(w[2], iv) && w[2].size() <= 10 && iv >= -1440 && iv <= 1440 && slots[i].a()) {
+        } else if (op == "tz" && w.size() == 3 && slot_of(w[1], i) && int_of(w[2], -1440, 1440, iv) && slots[i].a()) {
             slots[i].a()->setTimezone((int)iv);
             std::cout << state_line(1) << "\n";
         } else if (op == "en" && w.size() == 2 && slot_of(w[1], i) && slots[i].a()) {
@@ -175,7 +253,8 @@ int main(int argc, char **argv) {
             slots[i].a()->refresh();
             std::cout << state_line(1) << "\n";
         } else if (op == "cl" && w.size() == 2 && slot_of(w[1], i) && slots[i].a()) {
-            slots[i].a()->cleanup();
+            slots[i].a()->cleanup();                            // clears the callback too:
+            slots[i].a()->setCallback([i] { on_alarm(i); });    // re-install it (a silent expiry could not be traced)
             st[i] = 'N';
             std::cout << state_line(1) << "\n";
         } else if (op == "del" && w.size() == 2 && slot_of(w[1], i) && slots[i].a()) {
